@@ -128,7 +128,7 @@ class ObjectTranscoder(RecordTranscoder):
                         # the field as an index into a list.
                         try:
                             value = input_object[int(field_path[0])]
-                        except (ValueError, IndexError):
+                        except (ValueError, IndexError, TypeError, KeyError):
                             # Field not found in record, try next field.
                             continue
                 # Now descend into the record to find the innermost
@@ -142,7 +142,7 @@ class ObjectTranscoder(RecordTranscoder):
                     except AttributeError:
                         try:
                             value = value[int(field)]
-                        except (ValueError, IndexError):
+                        except (ValueError, IndexError, TypeError, KeyError):
                             # Field not found in object.
                             value = None
                             break
